@@ -83,3 +83,13 @@ func VerifQueueLevels(s Screen) (evLen, evCap, keyLen, keyCap int, ok bool) {
 	}
 	return len(t.eventQ), cap(t.eventQ), len(t.keychan), cap(t.keychan), true
 }
+
+// Reset discards pending input and the parser's carried state (Alt prefix,
+// held mouse button) so that the parser can be reused for another input.
+func (p *VerifParser) Reset() {
+	p.buf.Reset()
+	p.t.Lock()
+	p.t.escaped = false
+	p.t.buttondn = false
+	p.t.Unlock()
+}
